@@ -42,6 +42,7 @@ def gen(tier: str, seed: int) -> list[Case]:
         pkg = pg.random_pkg(rng, cfg)
         counts = pg.assign_cross_refs(rng, pkg, allowed, 0.5)
         add_public_inheritance(rng, pkg)
+        add_private_inheritance(rng, pkg)
         add_generic_refs(rng, pkg, gated)
         cases.append(Case(cid=f"c11-{i}", files=pg.render(pkg), opts=(["-nc"] if i % 2 else []) + noise_opts(seed, PID, i), meta={"pkg": pkg, "ref_categories": counts}, reach=REACH))
     for name, pkg in scenarios().items():
@@ -93,6 +94,30 @@ def add_public_inheritance(rng, pkg: pg.Pkg) -> None:
                 m.imports.append(line)
         c.bases.append(c2.name)
         c2.has_subclass = True
+
+
+def add_private_inheritance(rng, pkg: pg.Pkg) -> None:
+    """Public classes deriving from a PRIVATE class of ANOTHER module whose public methods use classes of that other
+    module: the methods are shown in the subclass, so their types have to be imported into the subclass's stub."""
+    tops = [(m, d) for m in pkg.modules for d in m.decls if isinstance(d, pg.Cls)]
+    pubs = pg.publicity(pkg)
+    gated = gated_features()
+    ok = {c for c in REF_CATEGORIES if f"ref:{c}" not in gated}
+    k = 0
+    for m, c in tops:
+        if c.bases or c.name.startswith("_") or rng.random() > 0.35:
+            continue
+        cands = [(m2, t) for m2, t in tops if m2 is not m and not t.name.startswith("_") and not t.bases and pg.ref_category(pkg, pubs, m, m2, t) in ok]
+        if not cands:
+            continue
+        m2, t = rng.choice(cands)
+        k += 1
+        base = pg.Cls(f"_PrivBase{k}Of{t.name}", methods=[pg.Fn(f"inherited_via_private_{k}", [pg.Param("a", t.name), pg.Param("b", f"list[{t.name}]")], t.name, role="inst")])
+        m2.decls.insert(m2.decls.index(t) + 1, base)
+        line = f"from {m2.qname} import {base.name}"
+        if line not in m.imports:
+            m.imports.append(line)
+        c.bases.append(base.name)
 
 
 def add_generic_refs(rng, pkg: pg.Pkg, gated: set) -> None:
